@@ -243,6 +243,43 @@ func init() {
 			},
 		}, false
 	}))
+	// first uses of every getter of a default-constructed Config from two requests at once (values that are built
+	// lazily must not be stored into the shared Config without synchronisation)
+	registerScenario(Scenario{Name: "default-config-getters", Prop: "C19", Build: func() (*World, []func(), func(x *Exec) []Violation) {
+		w := NewWorld(Profile{DefaultConfig: true})
+		ctx := context.Background()
+		body := func() {
+			c := w.Cfg
+			c.GetJWKSFetcherStrategy(ctx)
+			c.GetScopeStrategy(ctx)
+			c.GetAudienceStrategy(ctx)
+			c.GetSecretsHasher(ctx)
+			c.GetHTTPClient(ctx)
+			c.GetMessageCatalog(ctx)
+			c.GetFormPostHTMLTemplate(ctx)
+			c.GetTokenURLs(ctx)
+			c.GetRefreshTokenScopes(ctx)
+			c.GetMinParameterEntropy(ctx)
+			c.GetAllowedPrompts(ctx)
+			c.GetRedirectSecureChecker(ctx)
+		}
+		return w, []func(){body, body}, nil
+	}})
+	// two introspections of one token: the introspection request takes over the stored session by reference
+	for _, st := range []string{"default", "openid", "jwt"} {
+		st := st
+		registerScenario(c19APIScenario("introspect-introspect-"+st+"-session", Profile{Session: st}, func(w *World) ([]func() *Obs, bool) {
+			at := w.Token(url.Values{"grant_type": {"client_credentials"}, "scope": {"a"}}, w.AuthFor("B")).Str("access_token")
+			op := func() *Obs {
+				act, io := w.Active(at)
+				if !act {
+					io.Err = "genuine-token-reported-inactive"
+				}
+				return io
+			}
+			return []func() *Obs{op, op}, false
+		}))
+	}
 	registerScenario(c19APIScenario("parpush-deviceauth", def, func(w *World) ([]func() *Obs, bool) {
 		// three independent random-byte consumers: PAR request_uri (no lock), device code (device strategy's lock), access token (core strategy's lock)
 		return []func() *Obs{
@@ -384,6 +421,30 @@ func init() {
 		res = r.Pool.Do("c19store", sj, r.Deadline)
 		if !r.MergeJobs(res) {
 			r.Exhaustive = false
+		}
+		// vacuity: a scenario in which no operation ever succeeds explores error paths only (a broken set-up)
+		for _, n := range names {
+			if n == "mint-mint-mint" || n == "default-config-getters" {
+				continue
+			}
+			alive := false
+			for cls := range r.Agg.Classes {
+				if !strings.HasPrefix(cls, n+":[") {
+					continue
+				}
+				body := cls[len(n)+2:]
+				if i := strings.Index(body, "]"); i >= 0 {
+					body = body[:i]
+				}
+				for _, o := range strings.Fields(body) {
+					if !strings.HasPrefix(o, "invalid_") && !strings.Contains(o, "error") && o != "nil" && !strings.HasPrefix(o, "unauthorized") && !strings.HasPrefix(o, "access_denied") {
+						alive = true
+					}
+				}
+			}
+			if !alive && r.Exhaustive {
+				r.HarnessErrs = append(r.HarnessErrs, "vacuous scenario "+n+": no operation succeeded in any explored execution")
+			}
 		}
 		r.Bounds = map[string]any{"api_scenarios": names, "preemption_bound_2_threads": b2, "preemption_bound_3_threads": b3, "storage_call_granularity_bounds (-1 = all interleavings)": storageBounds,
 			"store_triples": "every multiset of 3 operations per table (5 tables, 30 operations) on colliding keys from a populated state", "store_triple_preemption_bound": bs}
